@@ -181,7 +181,7 @@ impl Maker {
             Maker::Blk(d) => {
                 let n = *rng.pick(&[0usize, 1, 1, 2, w, w + 1, 2 * w + 1]);
                 let n = if d.bs == 1 { n * 3 + rng.below(b + 2) } else { n };
-                Op::Blk(wl::any_bkind(rng), rng.bytes((n * d.bs).min(2048)))
+                Op::Blk(wl::any_bkind(rng), rng.bytes(n.min((2048 / d.bs.max(1)).max(1)) * d.bs))
             }
             Maker::Buf(_) => {
                 let r = rng.below(3 * b);
@@ -508,14 +508,14 @@ fn threads(ctx: &mut Ctx) {
         let bar = Arc::new(Barrier::new(2));
         let (b1, b2) = (bar.clone(), bar);
         let (h2c, h3c) = (h2.clone(), h3.clone());
-        let t1 = std::thread::spawn(move || {
+        let t1 = std::thread::Builder::new().stack_size(crate::STACK / 8).spawn(move || {
             b1.wait();
             h2c.iter().map(|op| a.step(op)).collect::<Vec<_>>()
-        });
-        let t2 = std::thread::spawn(move || {
+        }).expect("spawn");
+        let t2 = std::thread::Builder::new().stack_size(crate::STACK / 8).spawn(move || {
             b2.wait();
             h3c.iter().map(|op| bobj.step(op)).collect::<Vec<_>>()
-        });
+        }).expect("spawn");
         let ra = t1.join().map_err(|_| "thread 1 panicked")?;
         let rb = t2.join().map_err(|_| "thread 2 panicked")?;
         Ok::<_, &'static str>((ra, rb, replay(&mk, &key, &iv, &h1, &h2), replay(&mk, &key, &iv, &h1, &h3)))
